@@ -549,5 +549,9 @@ PROPS["C12"]["rules"] = PROPS["C12"]["rules"] + [rules_ref.rule_newref_same_tag]
 PROPS["C13"]["rules"] = PROPS["C13"]["rules"] + [rules_handles.rule_borrowed_accrec_not_released]
 PROPS["C13"]["explanation"] += " (ACCRECOWN) a routine releases an access record it looked up from a caller's id only together with that id."
 
+PROPS["C04"]["rules"] = PROPS["C04"]["rules"] + [rules_coders.rule_coder_write_guard]
+PROPS["C04"]["explanation"] += " (WRITEGUARD) the write guard of each stream coder admits an append and a full rewrite from the start and refuses partial rewrites (evaluated on five representative situations)."
+PROPS["C05"]["rules"] = PROPS["C05"]["rules"] + [rules_coders.rule_coder_write_guard]
+
 NOT_APPLICABLE = {}
 
